@@ -90,6 +90,16 @@ Definition dedup_by {A} (same : A -> A -> bool) (l : list A) : list A :=
   | x :: rest => x :: dedup_from same x rest
   end.
 
+(* driver helper: the list is already in non-decreasing spelling order (see fst_new_bulk) *)
+Fixpoint adj_sorted (l : list (text * nat)) : bool :=
+  match l with
+  | a :: rest => match rest with
+                 | b :: _ => text_leb (fst a) (fst b) && adj_sorted rest
+                 | [] => true
+                 end
+  | [] => true
+  end.
+
 Section Dict.
   Variable is_lower : char -> bool.            (* char::is_lowercase *)
   Variable lower : char -> list char.          (* char::to_lowercase *)
